@@ -281,7 +281,11 @@ func (c *concretizer) stmt(s xStmt) {
 	case "ycontent":
 		c.w("{{ yield content" + opt(s.E) + " }}")
 	case "include":
-		c.w("{{ include " + strconv.Quote(s.N) + opt(s.E) + " }}")
+		if s.N == "@ctx" {
+			c.w("{{ include . }}")
+		} else {
+			c.w("{{ include " + strconv.Quote(s.N) + opt(s.E) + " }}")
+		}
 	case "execlet":
 		a := strconv.Quote(s.N2)
 		if s.E.K != "none" {
@@ -528,6 +532,7 @@ func xBuildOpt(c *xCase, esc jet.SafeWriter, useEsc bool, html bool) (*xWorld, e
 		loader.Set(cz.file, cz.b.String())
 	}
 	w.colls = cz.colls
+	loader.Set("/brk.jet", "broken {{ end }}") // exists, does not parse (BrokenName in JetExec.tla)
 	opts := []jet.Option{}
 	if useEsc {
 		opts = append(opts, jet.WithSafeWriter(esc))
